@@ -110,7 +110,11 @@ class Actor:
     def __init__(self, h: Harness, name: Any, mode: str) -> None:
         self.h = h
         self.name = name
-        self.mode = mode  # "scope" | "native"
+        # "scope": cancelled through its own CancelScope; "native": a plain asyncio task
+        # cancelled with Task.cancel(); "native-in-group": Task.cancel() on a task that is a
+        # task-group member running inside an (un-cancelled) CancelScope, i.e. a task with
+        # AnyIO scope state (has_pending_cancellation() consults both sources for it)
+        self.mode = mode
         self.task: asyncio.Task | None = None
         self.scope: CancelScope | None = None
         self.cancel_issued = False
@@ -125,12 +129,12 @@ class Actor:
         if self.done or self.cancel_issued:
             return
 
-        if self.mode == "native":
+        if self.mode != "scope":
             if self.task is None or self.task.done():
                 return
 
             self.cancel_issued = True
-            self.cancel_issued_seq = self.h.ev(self.name, "cancel-issued", "native")
+            self.cancel_issued_seq = self.h.ev(self.name, "cancel-issued", self.mode)
             self.task.cancel()
         else:
             if self.scope is None:
@@ -154,13 +158,16 @@ async def run_actors(
             if actor.mode == "scope":
                 with CancelScope() as actor.scope:
                     actor.outcome = await body(actor)
+            elif actor.mode == "native-in-group":
+                with CancelScope():
+                    actor.outcome = await body(actor)
             else:
                 actor.outcome = await body(actor)
         except asyncio.CancelledError as e:
             actor.exc = e
             h.ev(actor.name, "end", "cancelled")
-            if actor.mode == "native":
-                return  # a natively cancelled plain task just ends
+            if actor.mode != "scope":
+                return  # a natively cancelled task just ends
 
             raise
         except BaseException as e:  # noqa: BLE001
@@ -178,7 +185,7 @@ async def run_actors(
     async with anyio.create_task_group() as tg:
         for actor, body in bodies:
             h.actors.append(actor)
-            if actor.mode == "scope":
+            if actor.mode in ("scope", "native-in-group"):
                 tg.start_soon(runner, actor, body, name=f"actor-{actor.name}")
             else:
                 t = h.loop.create_task(runner(actor, body), name=f"actor-{actor.name}")
